@@ -58,6 +58,19 @@ def is_backend_refusal(exc):
     return fr is not None and fr[0] in ("solver_voltage.py", "utils/solver_utils.py")
 
 
+def tracer_leak(m):
+    """True if the module's private jax arrays hold leaked tracers (left behind by integrate under jax.jit)."""
+    try:
+        for d in (getattr(m, "jaxedges", None), getattr(m, "jaxnodes", None)):
+            if d:
+                for v in d.values():
+                    if isinstance(v, jax.core.Tracer):
+                        return True
+    except Exception:  # noqa: BLE001
+        return False
+    return False
+
+
 def exc_in_harness(exc):
     """True if the innermost frame of the traceback is in /verif code (a bug of the harness, not of jaxley)."""
     tb = traceback.extract_tb(exc.__traceback__)
